@@ -217,7 +217,15 @@ impl UnrepairedDatabaseHeader {
     // (repairing if necessary). Returns the usable DatabaseHeader along with a `clean` flag that is
     // true only when nothing had to be reconciled: the primary was kept and the stored layout
     // already matched `file_len`.
-    pub(super) fn finalize(mut self, file_len: u64) -> Result<(DatabaseHeader, bool)> {
+    //
+    // `own_file_len` is true when `file_len` is the length this process itself gave the file: an
+    // uncommitted transaction may have grown it, so a stored layout that is merely behind such a
+    // length is not something that was changed behind redb's back, and does not count as unclean.
+    pub(super) fn finalize(
+        mut self,
+        file_len: u64,
+        own_file_len: bool,
+    ) -> Result<(DatabaseHeader, bool)> {
         if self.inner.recovery_required {
             // The region counts are unchecksummed and rewritten on every resize, so a crash
             // mid-resize can tear them. Recovery is required, so rebuild the layout from the file
@@ -235,7 +243,7 @@ impl UnrepairedDatabaseHeader {
                 && trailing_pages == self.inner.trailing_partial_region_pages;
             self.inner.set_layout(recalculated);
             let kept_primary = self.select_primary_slot()?;
-            return Ok((self.inner, kept_primary && layout_matched));
+            return Ok((self.inner, kept_primary && (layout_matched || own_file_len)));
         }
 
         // Recovery isn't required, so the stored layout was written by a clean shutdown and is
@@ -254,7 +262,7 @@ impl UnrepairedDatabaseHeader {
             self.inner.set_layout(recalculated);
         }
         let kept_primary = self.select_primary_slot()?;
-        Ok((self.inner, kept_primary && !layout_stale))
+        Ok((self.inner, kept_primary && (!layout_stale || own_file_len)))
     }
 
     // Rebuild the database layout from the actual file length, trusting only the immutable region
